@@ -269,7 +269,9 @@ class Oracle(simcheck.BaseOracle):
             allowed = {"status", "log", "update_data"}
             if after["in_blotter"]:
                 self.add("refused-order-in-blotter", "refused new order %d is in the blotter" % idx)
-            if result.startswith("False:") and (after["status"] is None or after["status"].name != "VIOLATION"):
+            # (an order that already carries a status - e.g. a replacement order whose re-placement failed and was completed at
+            # once - is left as it is by violation(), fix 0b9ab18)
+            if result.startswith("False:") and before["status"] in (None,) and (after["status"] is None or after["status"].name != "VIOLATION"):
                 self.add("refused-order-not-marked", "new order %d refused by a control (%s) is %s" % (idx, result, after["status"]))
             if set(diff) - allowed:
                 self.add("refused-place-changed-state", "refused %s of new order %d changed %s" % (a[0], idx, sorted(set(diff) - allowed)))
